@@ -23,14 +23,23 @@ Definition collapse (ms : list Z) : Z :=
   fold_right Z.max 0 (filter (fun m => 0 <=? m) ms) + fold_right Z.min 0 (filter (fun m => m <=? 0) ms).
 Definition avoid (v : brk) : bool := match v with BAvoid | BAvoidPage => true | _ => false end.
 Definition force (v : brk) : bool := match v with BPage | BLeft | BRight | BRecto | BVerso => true | _ => false end.
-Definition fold_breaks (values : list brk) : brk :=
-  fold_left (fun result value =>
-    match value, result with
-    | (BLeft | BRight | BRecto | BVerso), _ => value
-    | (BPage | BColumn), (BAuto | BAvoid | BAvoidPage | BAvoidColumn) => value
-    | (BAvoid | BAvoidPage | BAvoidColumn), BAuto => value
-    | _, _ => result
-    end) values BAuto.
+Definition is_avoid_any (v : brk) : bool := match v with BAvoid | BAvoidPage | BAvoidColumn => true | _ => false end.
+Definition brk_eqb (a b : brk) : bool :=
+  match a, b with
+  | BAuto, BAuto | BAvoid, BAvoid | BAvoidPage, BAvoidPage | BAvoidColumn, BAvoidColumn | BPage, BPage
+  | BColumn, BColumn | BLeft, BLeft | BRight, BRight | BRecto, BRecto | BVerso, BVerso => true
+  | _, _ => false
+  end.
+(* one step of the loop of block_level_page_break *)
+Definition fold_step (result value : brk) : brk :=
+  match value, result with
+  | (BLeft | BRight | BRecto | BVerso), _ => value
+  | BPage, (BAuto | BAvoid | BAvoidPage | BAvoidColumn | BColumn) => value
+  | BColumn, (BAuto | BAvoid | BAvoidPage | BAvoidColumn) => value
+  | (BAvoid | BAvoidPage | BAvoidColumn), BAuto => value
+  | _, _ => if negb (brk_eqb value result) && is_avoid_any value && is_avoid_any result then BAvoid else result
+  end.
+Definition fold_breaks (values : list brk) : brk := fold_left fold_step values BAuto.
 
 Fixpoint before_chain_rev (f : frag) : list brk :=      (* outermost first *)
   match f with
@@ -179,7 +188,7 @@ Fixpoint bcl (c : ctx) (b : box) (pos_y mt bottom_space : Z) (sk : option skip) 
       let pt := if reset then 0 else s_pt st in
       let bt := if reset then 0 else s_bt st in
       let dbd0 := clone in
-      let bottom_space := if dbd0 then bottom_space + pb + bb + mb else bottom_space in
+      let bottom_space := if dbd0 then bottom_space + pb + bb + Z.max 0 mb else bottom_space in
       let O0 := adj ++ [mt] in
       let cwc := negb (negb (bt =? 0) || negb (pt =? 0) || is_root) in
       let pos_y1 := if cwc then pos_y else pos_y + collapse O0 - mt in
@@ -236,7 +245,7 @@ Fixpoint bcl (c : ctx) (b : box) (pos_y mt bottom_space : Z) (sk : option skip) 
                             else if can_break && overflows lim content_bottom then (None, b_resume r, b_np r, ls_pos s, O1, out, same)
                             else if can_break && overflows lim border_bottom then
                               let '(res2, cur_fin2, out2, same2) :=
-                                bcl c child cy (child_mt c cst is_root pie_nc cur_fin) (bottom_space + cpb + cbb) sub pie_nc cur_fin in
+                                bcl c child (ls_pos s) (child_mt c cst is_root pie_nc cur_fin) (bottom_space + cpb + cbb) sub pie_nc cur_fin in
                               let O1' := if ls_cur_is_O s then cur_fin2 else O1 in
                               match res2 with
                               | Some r2 =>
